@@ -1,10 +1,200 @@
 package main
 
-// Generators for rainfall-runoff models.
+import "math"
+
+// Generators for rainfall-runoff models (properties C10, C15).
+//
+// Parameter ranges: the OW-SPEC ranges where the spec gives them (GR4J, Sacramento), otherwise the physical ranges
+// of the model's documentation (Simhyd: Chiew et al. 2002; SURM: eWater Source scientific reference guide).
+// Inputs: rainfall and PET in mm/day, built from segments with long dry spells and extreme storms.
+
+// RainPet draws a rainfall series and a PET series of length T.
+func RainPet(r *Rng, T int) [][]float64 {
+	rain := Series(r, T, []float64{1, 10, 40, 150}[r.Intn(4)])
+	pet := Series(r, T, []float64{1, 5, 12}[r.Intn(3)])
+	switch r.Intn(8) {
+	case 0: // no evaporative demand at all (GR4J closed balance)
+		pet = make([]float64, T)
+	case 1: // constant PET
+		pet = ConstSeries(T, r.Uniform(0, 8))
+	case 2: // long dry spell in the middle of the series
+		a := r.Intn(T)
+		b := a + r.Range(1, 1+T/2)
+		for i := a; i < b && i < T; i++ {
+			rain[i] = 0
+		}
+	case 3: // extreme storm on one day, dry afterwards
+		a := r.Intn(T)
+		rain[a] = r.Uniform(200, 2000)
+		dry := r.Intn(30)
+		for i := a + 1; i < T && i < a+1+dry; i++ {
+			rain[i] = 0
+		}
+	case 4: // rain equal to PET on some days (the `>` / `≥` boundary of the net-rainfall test)
+		for i := 0; i < T; i++ {
+			if r.Chance(0.3) {
+				pet[i] = rain[i]
+			}
+		}
+	}
+	return [][]float64{rain, pet}
+}
+
+// gr4jX4 is dense in [0.5,4] and hits every unit-hydrograph length 1..4 / 1..8, the integers and half-integers
+// (where ceil jumps) and their floating-point neighbours.
+func gr4jX4(r *Rng) float64 {
+	switch r.Intn(6) {
+	case 0:
+		return []float64{0.5, 1, 1.5, 2, 2.5, 3, 3.5, 4}[r.Intn(8)]
+	case 1:
+		v := []float64{1, 1.5, 2, 2.5, 3, 3.5}[r.Intn(6)]
+		if r.Bool() {
+			return math.Nextafter(v, 10)
+		}
+		return math.Nextafter(v, 0)
+	}
+	return r.Uniform(0.5, 4)
+}
+
+func gr4jParams(r *Rng) []float64 {
+	x1 := r.LogUniform(1, 1500)
+	x2 := r.Uniform(-10, 5)
+	switch r.Intn(5) {
+	case 0:
+		x2 = 0 // no groundwater exchange: the water balance closes
+	case 1, 2:
+		x2 = r.Uniform(-10, 0) // losing catchment: the "never creates water" budget applies
+	}
+	x3 := r.LogUniform(1, 500)
+	return []float64{Snap(r, x1), x2, Snap(r, x3), gr4jX4(r)}
+}
+
+func gr4jStates(r *Rng, p []float64) []float64 {
+	n1 := int(math.Ceil(p[3]))
+	n2 := int(math.Ceil(2 * p[3]))
+	s := []float64{p[0] * r.F01(), p[2] * r.F01(), float64(n1), float64(n2)}
+	if r.Chance(0.1) {
+		s[0] = p[0] // production store exactly full
+	}
+	sc := r.LogUniform(1e-3, 50)
+	for i := 0; i < n1+n2; i++ {
+		v := 0.0
+		if r.Chance(0.7) {
+			v = sc * r.F01()
+		}
+		s = append(s, v)
+	}
+	return s
+}
 
 func init() {
 	regModel(&ModelGen{Name: "RunoffCoefficient",
-		Params: func(r *Rng) []float64 { return []float64{Snap(r, r.F01())} },
-		Inputs: func(r *Rng, T int, p []float64) [][]float64 { return [][]float64{Series(r, T, 10)} },
+		Params: func(r *Rng) []float64 {
+			if r.Chance(0.1) {
+				return []float64{float64(r.Intn(2))}
+			}
+			return []float64{Snap(r, r.F01())}
+		},
+		Inputs: func(r *Rng, T int, p []float64) [][]float64 { return RainPet(r, T)[:1] },
+	})
+
+	regModel(&ModelGen{Name: "GR4J",
+		Params: gr4jParams,
+		Inputs: func(r *Rng, T int, p []float64) [][]float64 { return RainPet(r, T) },
+		States: func(r *Rng, p []float64) []float64 {
+			s := gr4jStates(r, p)
+			if r.Chance(0.04) {
+				// malformed state row: a zero-length unit hydrograph (SH[n-1] panics)
+				n1 := int(s[2])
+				n2 := int(s[3])
+				if r.Bool() {
+					return append([]float64{s[0], s[1], 0, s[3]}, s[4:4+n2]...)
+				}
+				return append([]float64{s[0], s[1], s[2], 0}, s[4+n2:4+n2+n1]...)
+			}
+			return s
+		},
+	})
+
+	// Simhyd: all coefficients are fractions, capacities in mm
+	regModel(&ModelGen{Name: "Simhyd",
+		Params: func(r *Rng) []float64 {
+			p := []float64{
+				r.F01(),                       // baseflowCoefficient
+				r.Uniform(0, 5),               // imperviousThreshold
+				r.LogUniform(0.1, 400),        // infiltrationCoefficient
+				r.Uniform(0, 10),              // infiltrationShape
+				r.F01(),                       // interflowCoefficient
+				r.F01(),                       // perviousFraction
+				r.Uniform(0, 5),               // rainfallInterceptionStoreCapacity
+				r.F01(),                       // rechargeCoefficient
+				Snap(r, r.LogUniform(1, 500)), // soilMoistureStoreCapacity
+			}
+			for _, i := range []int{0, 4, 5, 7} { // end points of the fractions
+				if r.Chance(0.08) {
+					p[i] = float64(r.Intn(2))
+				}
+			}
+			if r.Chance(0.05) {
+				p[1] = 0
+			}
+			if r.Chance(0.05) {
+				p[6] = 0
+			}
+			return p
+		},
+		Inputs: func(r *Rng, T int, p []float64) [][]float64 { return RainPet(r, T) },
+		States: func(r *Rng, p []float64) []float64 {
+			sms := p[8] * r.F01()
+			if r.Chance(0.1) {
+				sms = p[8]
+			}
+			gw := r.LogUniform(1e-3, 200)
+			if r.Chance(0.2) {
+				gw = 0
+			}
+			return []float64{sms, gw, (sms + gw) * p[5]}
+		},
+	})
+
+	// SURM. smax ≥ 10 mm: below that the ET term min(10·sms/smax, pet) can exceed the store (see DESIGN §6 C10).
+	regModel(&ModelGen{Name: "Surm",
+		Params: func(r *Rng) []float64 {
+			p := []float64{
+				r.F01(),                        // bfac
+				r.LogUniform(0.1, 400),         // coeff
+				r.F01(),                        // dseep
+				r.F01(),                        // fcFrac
+				r.F01(),                        // fimp
+				r.F01(),                        // rfac
+				Snap(r, r.LogUniform(10, 500)), // smax
+				r.Uniform(0, 10),               // sq
+				r.Uniform(0, 50),               // thres
+			}
+			for _, i := range []int{0, 2, 3, 4, 5} {
+				if r.Chance(0.08) {
+					p[i] = float64(r.Intn(2))
+				}
+			}
+			if r.Chance(0.1) {
+				p[6] = 10
+			}
+			if r.Chance(0.1) {
+				p[8] = 0
+			}
+			return p
+		},
+		Inputs: func(r *Rng, T int, p []float64) [][]float64 { return RainPet(r, T) },
+		States: func(r *Rng, p []float64) []float64 {
+			sms := p[6] * r.F01()
+			if r.Chance(0.1) {
+				sms = p[6]
+			}
+			gw := r.LogUniform(1e-3, 200)
+			if r.Chance(0.2) {
+				gw = 0
+			}
+			return []float64{sms, gw, sms + gw}
+		},
 	})
 }
